@@ -17,6 +17,8 @@
      driver-controlled monotonic clock; the ASan build runs the same histories. *)
 From Coq Require Import NArith Arith List Lia Bool.
 From Mtbl Require Import gen.Consts model.Bytes model.Fileset proofs.FilesetProofs proofs.FilesetView.
+(* source ties: the statements of the C functions the model follows (gen/Ties.v is regenerated from /repo on every run) *)
+From Mtbl Require props.Ties_C07.
 Import ListNotations.
 Local Open Scope N_scope.
 
